@@ -1,0 +1,12 @@
+//go:build verif
+
+package boot
+
+// VerifPoint, when set, is called at instrumented points (verification builds only).
+var VerifPoint func(name, path string)
+
+func verifPoint(name, path string) {
+	if VerifPoint != nil {
+		VerifPoint(name, path)
+	}
+}
